@@ -1659,6 +1659,13 @@ class SourceFinder(object):
                 # find the right pixels from the ra/dec
                 source_x, source_y = global_data.wcshelper.sky2pix(
                     [src.ra, src.dec])
+                # positions that cannot be projected are not on the image
+                if not (np.isfinite(source_x) and np.isfinite(source_y)):
+                    self.log.debug(
+                        "Source ({0},{1}) cannot be projected: skipping"
+                        .format(src.island, src.source)
+                    )
+                    continue
                 source_x -= 1
                 source_y -= 1
                 x = int(round(source_x))
